@@ -16,6 +16,7 @@ mod wrap;
 mod common;
 mod dml;
 mod ddl;
+mod tcl;
 mod gen_sql;
 mod kwhelpers;
 mod cursor;
@@ -87,6 +88,7 @@ fn main() {
                 "queries" => query::corr(dir, seed, &tier),
                 "dml" => dml::corr(dir, seed, &tier),
                 "ddl" => ddl::corr(dir, seed, &tier),
+                "tcl" => tcl::corr(dir, seed, &tier),
                 _ => { eprintln!("no corr stream {name}"); std::process::exit(2) }
             };
             rep.emit();
